@@ -158,6 +158,11 @@ class Engine(GenericConcreteEngine[Callable[..., Any]]):
                     # make callers believe the upstream tree had changed).
                     return transfer, done, messages
                 return transfer.reapply(upstream), done, messages
+            case MarkerRelation():
+                # Includes locked Materializations (already handled above) and
+                # user-defined markers, whose meaning we cannot assume survives
+                # inserting an operation upstream of them.
+                return tree, False, (f"backtracking through {type(tree).__name__} markers is not implemented",)
         raise NotImplementedError(f"Unsupported relation type {tree} for engine {self}.")
 
     def execute(self, relation: Relation) -> RowIterable:
